@@ -70,6 +70,11 @@ func propC01(w *World, r *Report) {
 	RunSizeAgree(w, r, nil)
 	RunMapdet(w, e, r, "mapdet", fns)
 	r.Floor("mapdet", 20)
+	for _, a := range boundsAssumptions {
+		r.Assumes(a)
+	}
+	RunLosslessFor(w, r, "C01", newBoundsRun(w))
+
 }
 
 // condNameSingleLanguage: every call of (*name.Info).Encode in the given
